@@ -320,12 +320,14 @@ def finalize (H : Bytes → Bytes) : Nat → State → State
     | .halt s' => s'
     | .more s' => finalize H fuel s'
 
-/-- `NewMultiHandler` -/
-def init (H : Bytes → Bytes) (sc : Script) : State :=
+/-- the handler struct as `NewMultiHandler` fills it in, before its first `finalize()` -/
+def state0 (sc : Script) : State :=
   let r1 := sc.rounds.getD 0 default
-  let s0 : State := { sc := sc, idx := 0, cur := r1.num, reached := [r1.num], msgs := [], bc := [], bh := [],
-                      err := none, result := none, out := [], closes := 0, acc := 0, accused := [] }
-  finalize H (sc.rounds.length + 1) s0
+  { sc := sc, idx := 0, cur := r1.num, reached := [r1.num], msgs := [], bc := [], bh := [],
+    err := none, result := none, out := [], closes := 0, acc := 0, accused := [] }
+
+/-- `NewMultiHandler` -/
+def init (H : Bytes → Bytes) (sc : Script) : State := finalize H (sc.rounds.length + 1) (state0 sc)
 
 def terminal (s : State) : Bool := s.err.isSome || s.result.isSome
 
